@@ -1,7 +1,60 @@
 import A2Verif.Model.Hex
-/-! driver family `c14` (stub until the family is built) -/
-namespace A2Verif.Drv.C14
+import A2Verif.Model.Detok
+/-!
+driver family `c14` — requests (bytes as upper-case hex, empty = `-`, numbers decimal):
 
-def handle (_toks : List String) : String := "bad-request"
+* `c14 detokA <hex>`            → `ok <hex of text>` | `err` | `panic`   (Applesoft detokenizer)
+* `c14 detokI <hex>`            → same for Integer BASIC
+* `c14 wfA <addr> <hex>`        → `true <line numbers, comma separated>` | `false`
+* `c14 wfI <hex>`               → `true <line numbers>` | `false`
+* `c14 asmA <addr> <num>:<hex> …` → `ok <hex>` | `panic`   (Applesoft framing of tokenized lines)
+* `c14 asmI <num>:<hex> …`      → `ok <hex>` | `err`       (Integer BASIC framing)
+-/
+namespace A2Verif.Drv.C14
+open A2Verif.Detok A2Verif.Hex
+
+def showOutcome : Outcome (List Nat) → String
+  | .ok s => "ok " ++ toHex s
+  | .err => "err"
+  | .panic => "panic"
+
+def bytesOK (bs : List Nat) : Bool := bs.all (· < 256)
+
+def parseLine (s : String) : Option Line :=
+  match s.splitOn ":" with
+  | [n, h] =>
+    match n.toNat?, ofHex h with
+    | some num, some body => if num < 65536 then some { num := num, body := body } else none
+    | _, _ => none
+  | _ => none
+
+def handle (toks : List String) : String :=
+  match toks with
+  | ["detokA", h] =>
+    match ofHex h with
+    | some bs => showOutcome (detokA bs)
+    | none => "bad-request"
+  | ["detokI", h] =>
+    match ofHex h with
+    | some bs => showOutcome (detokI bs)
+    | none => "bad-request"
+  | ["wfA", a, h] =>
+    match a.toNat?, ofHex h with
+    | some addr, some bs =>
+      if WF_A addr bs then "true " ++ natList (lineNumsA addr bs) else "false"
+    | _, _ => "bad-request"
+  | ["wfI", h] =>
+    match ofHex h with
+    | some bs => if WF_I bs then "true " ++ natList (lineNumsI bs) else "false"
+    | none => "bad-request"
+  | "asmA" :: a :: ls =>
+    match a.toNat?, ls.mapM parseLine with
+    | some addr, some lines => if addr < 65536 then showOutcome (assembleA addr lines) else "bad-request"
+    | _, _ => "bad-request"
+  | "asmI" :: ls =>
+    match ls.mapM parseLine with
+    | some lines => showOutcome (assembleI lines)
+    | none => "bad-request"
+  | _ => "bad-request"
 
 end A2Verif.Drv.C14
